@@ -40,6 +40,13 @@ func (v *Votes) Validate() error {
 }
 
 func (v *Voter) Validate() error {
+	// a pending voter only has the sha256 hash of its vote key until it is registered
+	if v.Status == VOTER_STATUS_PENDING {
+		if len(v.VoteKey) != sha256.Size {
+			return errors.New("invalid vote key hash length")
+		}
+		return nil
+	}
 	if len(v.VoteKey) != goatcrypto.PubkeyLength {
 		return errors.New("invalid bls pubkey length")
 	}
